@@ -93,7 +93,15 @@ impl<'a> Nevra<'a> {
 
     /// Parse the name, epoch, version, release and arch values and return them as a 5-element tuple
     pub fn parse_values(nevra: &'a str) -> (&'a str, &'a str, &'a str, &'a str, &'a str) {
-        let (name, evra) = nevra.split_once('-').unwrap_or((nevra, ""));
+        // the name may itself contain '-': version and release are the last two '-'-separated fields
+        let (name, evra) = match nevra.rsplit_once('-') {
+            Some((nev, ra)) => match nev.rsplit_once('-') {
+                Some((name, _)) => (name, &nevra[name.len() + 1..]),
+                // a single '-' separates the name from a version without release
+                None => (nev, ra),
+            },
+            None => (nevra, ""),
+        };
         let (epoch, vra) = evra.split_once(':').unwrap_or(("", evra));
         let (version, ra) = vra.split_once('-').unwrap_or((vra, ""));
         let (release, arch) = ra.rsplit_once('.').unwrap_or((ra, ""));
